@@ -1,3 +1,4 @@
+\* one state per total voting power N = 1..MaxN
 CONSTANTS MaxN = 1000000
 INIT Init
 NEXT Next
